@@ -299,7 +299,6 @@ func c18ChecksumShape(c *Ctx) {
 
 var _ = token.ADD
 
-
 // c18Reader is also used by C03 (rule prefix C03) for the frame-size fact.
 func c18Reader(c *Ctx, fn *ssa.Function, prop string) {
 	r, sx := c.R, c.Sx()
@@ -389,58 +388,55 @@ func c18Reader(c *Ctx, fn *ssa.Function, prop string) {
 	if !loop[delivered] {
 		// delivery block is outside the cycle (it returns): fine
 	}
-	// delivery requires every guard
-	req := func(name string, e Edge, ok bool) {
-		if !ok {
+	// delivery requires every guard (atoms of the split graph: nested ifs, && chains and switch cases alike)
+	atoms := atomsIn(fn)
+	reqAtom := func(name string, pred func(atomFact) (want bool, ok bool)) {
+		found := false
+		for _, x := range atoms {
+			if _, ok := pred(x); ok {
+				found = true
+			}
+		}
+		if !found {
 			r.Violation("C18-K3", key("guard "+name+" present"), c.P.ipos(finalConsume), "guard not found")
 			return
 		}
-		r.Check(mustPassEdges(fn, delivered, e), "C18-K3", key("delivery requires "+name), c.P.ipos(finalConsume), "delivery unreachable without the guard's edge", "a frame is delivered although "+name+" does not hold")
-	}
-	findBool := func(isV func(ssa.Value) bool, want bool) (Edge, bool) {
-		for _, b := range fn.Blocks {
-			if iff := ifOf(b); iff != nil {
-				if tE, fE, ok := boolEdgesOf(iff, isV); ok {
-					if want {
-						return tE, true
-					}
-					return fE, true
+		ok := mustPassAtoms(fn, delivered, func(as []atomFact) bool {
+			for _, x := range as {
+				if w, isG := pred(x); isG && w {
+					return true
 				}
 			}
-		}
-		return Edge{}, false
+			return false
+		})
+		r.Check(ok, "C18-K3", key("delivery requires "+name), c.P.ipos(finalConsume), "delivery unreachable without an edge on which the guard holds", "a frame is delivered although "+name+" does not hold")
 	}
-	e1, ok1 := findBool(func(v ssa.Value) bool { return v == ssa.Value(isValid) }, true)
-	req("a valid IPv4 header (isValid)", e1, ok1)
-	e2, ok2 := findBool(func(v ssa.Value) bool { return v == ssa.Value(has) }, true)
-	req("8 bytes of UDP header in the buffer", e2, ok2)
-	e3, ok3 := findBool(func(v ssa.Value) bool { return v == ssa.Value(match) }, true)
-	req("a destination matching the bound address/port (udpMatch)", e3, ok3)
-	// protocol == 17
-	okP := false
-	for _, b := range fn.Blocks {
-		iff := ifOf(b)
-		if iff == nil {
-			continue
+	boolIs := func(v ssa.Value) func(atomFact) (bool, bool) {
+		return func(x atomFact) (bool, bool) {
+			if x.v == v {
+				return x.val, true
+			}
+			return false, false
 		}
-		bo, ok := iff.Cond.(*ssa.BinOp)
+	}
+	reqAtom("a valid IPv4 header (isValid)", boolIs(isValid))
+	reqAtom("8 bytes of UDP header in the buffer", boolIs(has))
+	reqAtom("a destination matching the bound address/port (udpMatch)", boolIs(match))
+	// protocol == 17
+	isProto := func(s string) bool {
+		return strings.Contains(s, "ipv4).transportProtocol]") || strings.Contains(s, "ipv4).protocol]")
+	}
+	reqAtom("protocol 17 (UDP)", func(x atomFact) (bool, bool) {
+		bo, ok := x.v.(*ssa.BinOp)
 		if !ok || (bo.Op != token.EQL && bo.Op != token.NEQ) {
-			continue
+			return false, false
 		}
 		xs, ys := sx.Of(bo.X).String(), sx.Of(bo.Y).String()
-		isProto := func(s string) bool { return strings.Contains(s, "ipv4).transportProtocol]") || strings.Contains(s, "ipv4).protocol]") }
-		if (isProto(xs) && ys == "const(17)") || (isProto(ys) && xs == "const(17)") {
-			e := Edge{b, b.Succs[0]}
-			if bo.Op == token.NEQ {
-				e = Edge{b, b.Succs[1]}
-			}
-			okP = true
-			req("protocol 17 (UDP)", e, true)
+		if !((isProto(xs) && ys == "const(17)") || (isProto(ys) && xs == "const(17)")) {
+			return false, false
 		}
-	}
-	if !okP {
-		r.Violation("C18-K3", key("guard protocol == 17 present"), c.P.ipos(finalConsume), "no comparison of the IP protocol field with 17")
-	}
+		return (bo.Op == token.EQL) == x.val, true
+	})
 	// udpMatch(addr, upc.boundAddr) with addr = {dst address, dst port}
 	if al, ok := match.Call.Args[0].(*ssa.Alloc); ok {
 		ip, port := allocFieldStores(c, al)
@@ -496,58 +492,92 @@ func allocFieldStores(c *Ctx, al *ssa.Alloc) (map[string]string, map[string]stri
 	return out, out
 }
 
-// c18IsValid: isValid returns true only under len(b) >= 20 ∧ hlen >= 20 ∧ hlen <= tlen ∧ tlen <= pktSize ∧ version == 4
-func c18IsValid(c *Ctx, f *ssa.Function) {
-	r, sx := c.R, c.Sx()
-	key := func(s string) string { return "nclient4.ipv4.isValid: " + s }
-	var trueRets []*ssa.Return
-	for _, ret := range returnsOf(f) {
-		if k, ok := ret.Results[0].(*ssa.Const); ok {
-			if k.Value != nil && k.Value.String() == "true" {
-				trueRets = append(trueRets, ret)
-			}
-		} else {
-			r.Undecided("C18-K1", key("non-constant result"), c.P.ipos(ret), sx.Of(ret.Results[0]).String())
+// normalFacts: comparison facts in one normal form "L < R", "L <= R", "L == R", "L != R" (polarity folded in,
+// > and >= mirrored, operands of == / != in lexical order), so that `!(a < b)`, `a >= b` and `b <= a` coincide
+func normalFacts(c *Ctx, facts []guardFact) []string {
+	sx := c.Sx()
+	var out []string
+	for _, f := range facts {
+		cf, ok := normCmp(f.cond, f.pol)
+		if !ok {
+			out = append(out, f.str)
+			continue
 		}
+		l, r := sx.Of(cf.l).String(), sx.Of(cf.r).String()
+		if (cf.op == token.EQL || cf.op == token.NEQ) && l > r {
+			l, r = r, l
+		}
+		out = append(out, l+" "+cf.op.String()+" "+r)
 	}
-	if len(trueRets) != 1 {
-		r.Undecided("C18-K1", key("single `return true`"), c.P.pos(f.Pos()), fmt.Sprintf("%d found", len(trueRets)))
-		return
-	}
+	sort.Strings(out)
+	return dedupe(out)
+}
+
+// c18IsValid: isValid returns true only under len(b) >= 20 ∧ hlen >= 20 ∧ hlen <= tlen ∧ tlen <= pktSize ∧ version == 4.
+// Every return that can yield true is examined: `return true` with the facts of its block, `return <expr>` with
+// those facts plus what <expr> == true implies (a && b written as an expression).
+func c18IsValid(c *Ctx, f *ssa.Function) {
+	r := c.R
+	key := func(s string) string { return "nclient4.ipv4.isValid: " + s }
 	gc := newGuardCache(c)
-	facts := gc.of(trueRets[0].Block())
-	var fs []string
-	for _, x := range facts {
-		fs = append(fs, x.str)
-	}
-	sort.Strings(fs)
 	b := "param((dhcpv4/nclient4.ipv4).isValid#0)"
 	n := "param((dhcpv4/nclient4.ipv4).isValid#1)"
 	hl := "conv[int](call[(dhcpv4/nclient4.ipv4).headerLength](" + b + "))"
 	tl := "conv[int](call[(dhcpv4/nclient4.ipv4).totalLength](" + b + "))"
+	ver := "call[dhcpv4/nclient4.ipVersion](" + b + ")"
 	need := map[string][]string{
-		"len(b) >= 20":   {"bin[<](len(" + b + "),const(20))=false"},
-		"hlen >= 20":     {"bin[<](" + hl + ",const(20))=false"},
-		"hlen <= tlen":   {"bin[<](" + tl + "," + hl + ")=false", "bin[<=](" + hl + "," + tl + ")=true"},
-		"tlen <= n":      {"bin[<](" + n + "," + tl + ")=false", "bin[<=](" + tl + "," + n + ")=true"},
-		"version == 4":   {"bin[!=](call[dhcpv4/nclient4.ipVersion](" + b + "),const(4))=false", "bin[==](call[dhcpv4/nclient4.ipVersion](" + b + "),const(4))=true", "bin[==](const(4),call[dhcpv4/nclient4.ipVersion](" + b + "))=true", "bin[!=](const(4),call[dhcpv4/nclient4.ipVersion](" + b + "))=false"},
+		"len(b) >= 20": {"const(20) <= len(" + b + ")", "const(19) < len(" + b + ")"},
+		"hlen >= 20":   {"const(20) <= " + hl, "const(19) < " + hl},
+		"hlen <= tlen": {hl + " <= " + tl},
+		"tlen <= n":    {tl + " <= " + n},
+		"version == 4": {"const(4) == " + ver, ver + " == const(4)"},
 	}
 	var names []string
 	for k := range need {
 		names = append(names, k)
 	}
 	sort.Strings(names)
-	for _, k := range names {
-		ok := false
-		for _, alt := range need[k] {
-			for _, f := range fs {
-				if f == alt {
-					ok = true
+	nTrue := 0
+	for _, ret := range returnsOf(f) {
+		res := ret.Results[0]
+		if k, ok := boolConst(res); ok && !k {
+			continue
+		}
+		nTrue++
+		facts := append([]guardFact{}, gc.of(ret.Block())...)
+		if _, isK := boolConst(res); !isK {
+			for _, a := range impliedAtoms(res, true, 0) {
+				facts = append(facts, guardFact{cond: a.v, pol: a.val})
+			}
+			// a φ result: facts of the only edge that can carry true are part of impliedAtoms' φ rule; the
+			// facts of that edge's predecessor block hold as well
+			if ph, ok := res.(*ssa.Phi); ok {
+				var cand []int
+				for i, e := range ph.Edges {
+					if k, isK := boolConst(e); isK && !k {
+						continue
+					}
+					cand = append(cand, i)
+				}
+				if len(cand) == 1 {
+					facts = append(facts, gc.of(ph.Block().Preds[cand[0]])...)
 				}
 			}
 		}
-		r.Check(ok, "C18-K1", key("true only if "+k), c.P.ipos(trueRets[0]), "guard set of `return true`", "isValid can return true without "+k+" (guards seen: "+strings.Join(fs, " ∧ ")+")")
+		fs := normalFacts(c, facts)
+		for _, k := range names {
+			ok := false
+			for _, alt := range need[k] {
+				for _, x := range fs {
+					if x == alt {
+						ok = true
+					}
+				}
+			}
+			r.Check(ok, "C18-K1", key("true only if "+k), c.P.ipos(ret), "facts under which this return yields true", "isValid can return true without "+k+" (facts: "+strings.Join(fs, " ∧ ")+")")
+		}
 	}
+	r.Check(nTrue >= 1, "C18-K1", key("a return that can yield true"), c.P.pos(f.Pos()), "instance count", "isValid never returns true")
 }
 
 func c18UdpMatch(c *Ctx, f *ssa.Function) {
@@ -695,7 +725,9 @@ func c18Writer(c *Ctx) {
 		r.Undecided("C18-K5", "writer anchors", "-", "ipv4.encode / udp.encode / udp4pkt not found")
 		return
 	}
-	fld := func(f *ssa.Function, name string) string { return "field[" + name + "](" + sx.Of(f.Params[1]).String() + ")" }
+	fld := func(f *ssa.Function, name string) string {
+		return "field[" + name + "](" + sx.Of(f.Params[1]).String() + ")"
+	}
 	seq := 0
 	ipW := offsetWrites(c, ipEnc, nil, 0, &seq)
 	// RFC 791 §3.1
